@@ -121,6 +121,15 @@ func judge(c *core.Ctx, cf cfg, h *hist.History, verbose bool) {
 	executed := map[*template.Template]bool{}
 	failed := map[*template.Template]bool{} // templates that reported an analysis error
 	sawAnalysisErr, okExecs, hasClone, hasLate := false, 0, false, false
+	redefined := false // a later definition call may have replaced a must-fail member
+	nInitial := 0
+	for _, op := range h.Ops {
+		if op.Kind == "new" || op.Kind == "parse" || op.Kind == "tnew" {
+			nInitial++
+		} else {
+			break
+		}
+	}
 	for i, op := range h.Ops {
 		c.Eval(1)
 		frozenBefore := model.Frozen(op.H)
@@ -152,6 +161,9 @@ func judge(c *core.Ctx, cf cfg, h *hist.History, verbose bool) {
 			c.Count("panics_skipped", 1)
 			return // the state after a panic is undefined; other monitors do not judge it
 		}
+		if i >= nInitial && (op.IsParse() || op.Kind == "clone" || op.Kind == "tnew") {
+			redefined = true
+		}
 		switch {
 		case op.IsParse():
 			if frozenBefore {
@@ -176,6 +188,20 @@ func judge(c *core.Ctx, cf cfg, h *hist.History, verbose bool) {
 			if res.HTMLNonZero && cf.sticky {
 				c.Violation(k, "step %d %s returned an error together with a non-zero HTML %q", i, describe(op), res.Out)
 				return
+			}
+			if (op.Kind == "exect" || op.Kind == "execthtml") && !redefined {
+				for _, mf := range h.MustFail {
+					if mf == op.Name {
+						c.Count("executions_of_members_that_must_fail", 1)
+						if !res.IsErr || res.Out != "" || res.Ticks != 0 {
+							c.Count("must_fail_member_did_not_fail", 1)
+							if cf.sticky {
+								c.Violation(k, "step %d %s: the body of %q contains a construct that cannot be contextualized, but the call gave (%q, err=%q, %d bodies run)", i, describe(op), op.Name, res.Out, res.Err, res.Ticks)
+								return
+							}
+						}
+					}
+				}
 			}
 			if res.AnalysisErr {
 				sawAnalysisErr = true
